@@ -296,9 +296,9 @@ Proof.
     { eapply ack_inv_same; [|exact Hinv]. same_ack_tac. }
     destruct (max_buffered <? f_len f).
     { eapply ack_inv_same; [|exact H1]. unfold init_fail. same_ack_tac. }
-    set (s2 := match typed_handler cfg (f_typ f) with Some _ => _ | None => _ end).
+    set (s2 := match first_handler cfg (f_typ f) with Some _ => _ | None => _ end).
     assert (Hs2 : ack_inv s2 /\ writer s2 = WNone).
-    { subst s2. destruct (typed_handler cfg (f_typ f)) as [k|]; [|split; assumption].
+    { subst s2. destruct (first_handler cfg (f_typ f)) as [k|]; [|split; assumption].
       destruct k; try (split; [eapply ack_inv_same; [|exact H1]; same_ack_tac | assumption]).
       split.
       - apply ack_inv_enqueue. eapply ack_inv_same; [|exact H1]. same_ack_tac.
